@@ -808,6 +808,22 @@ def install(reg):
         f = _repo(it, it.getattr(a[0], "repo"))
         return entries_view(it, f["index_dom"], f["index_sha"])
 
+    def cfg_entry(it, dom, sha):
+        """The blob id (decoded) of the .xandikos entry, or None."""
+        enc_axioms(it)
+        e8 = uf("encode[utf-8]", STR, STR)
+        da = uf("decode[ascii]", STR, STR)
+        k_ = e8(S(".xandikos"))
+        return VOpt(z3.Not(z3.Select(dom, k_)), VStr(da(z3.Select(sha, k_))))
+
+    def bare_cfg_view(it, a, k):
+        dom, sha, mode = head_entries(it, it.getattr(a[0], "repo"))
+        return cfg_entry(it, dom, sha)
+
+    def tree_cfg_view(it, a, k):
+        f = _repo(it, it.getattr(a[0], "repo"))
+        return cfg_entry(it, f["index_dom"], f["index_sha"])
+
     def abs_trees_view(it, a, k):
         r = it.getattr(a[0], "repo")
         return F(it, r)["trees"]
@@ -850,6 +866,8 @@ def install(reg):
     SN["tree_locked_view"] = lambda it, a, k: _repo(it, it.getattr(a[0], "repo"))["locked"]
     SN["false_view"] = lambda it, a, k: VBool(False)
     SN["bare_view"] = bare_view
+    SN["bare_cfg_view"] = bare_cfg_view
+    SN["tree_cfg_view"] = tree_cfg_view
     SN["tree_view"] = tree_view
     SN["repo_head"] = lambda it, a, k: _repo(it, a[0])["head"]
     SN["repo_ncommits"] = lambda it, a, k: _repo(it, a[0])["ncommits"]
